@@ -96,6 +96,9 @@ Definition show_perr (e : perr) : string :=
   | ExpectedCommaOrRightCurlyInStructFieldList => "ExpectedCommaOrRightCurlyInStructFieldList"
   | OverflowInNumberLiteral => "OverflowInNumberLiteral" | TrailingCharacters => "TrailingCharacters"
   | TrailingEqualSign => "TrailingEqualSign" | TrailingEqualSignFunction => "TrailingEqualSignFunction"
+  | ExpectedIdentifierAfterLet => "ExpectedIdentifierAfterLet"
+  | ExpectedEqualOrColonAfterLetIdentifier => "ExpectedEqualOrColonAfterLetIdentifier"
+  | ExpectedLeftParenAfterProcedureName => "ExpectedLeftParenAfterProcedureName"
   end.
 
 Definition show_binop (o : binop) : string :=
@@ -125,6 +128,15 @@ Fixpoint show_expr (e : expr) : string :=
       "(struct " ++ esc n ++ String.concat "" (map (fun fe => " (" ++ esc (fst fe) ++ " " ++ show_expr (snd fe) ++ ")") fs) ++ ")"
   end%string.
 
+Definition show_stmt (s : stmt) : string :=
+  match s with
+  | StExpr e => show_expr e
+  | StLet n e => "(let " ++ esc n ++ " " ++ show_expr e ++ ")"
+  | StProc k args =>
+      "(" ++ (match k with KPrint => "print" | KAssert => "assert" | KAssertEq => "assert_eq" | _ => "type" end)
+          ++ String.concat "" (map (fun a => " " ++ show_expr a) args) ++ ")"
+  end%string.
+
 Definition show_tokens (r : lres (list token)) : string :=
   match r with
   | LOk ts => join " " (map show_token ts ++ ["Eof"])
@@ -137,7 +149,7 @@ Definition show_parse (r : lres (list token)) : string :=
   match r with
   | LOk ts =>
       match parse ts with
-      | Ok es _ => "OK " ++ join " ; " (map show_expr es)
+      | Ok es _ => "OK " ++ join " ; " (map show_stmt es)
       | Err e => "ERR " ++ show_perr e
       | OutOfFuel => "OUTOFFUEL"
       | Unsupported => "UNSUPPORTED"
